@@ -13,7 +13,6 @@ import (
 	"bytes"
 	"encoding/json"
 	"fmt"
-	"math"
 	"os"
 	"path/filepath"
 	"regexp"
@@ -22,7 +21,6 @@ import (
 	"sync"
 
 	"github.com/invopop/gobl"
-	"github.com/invopop/gobl/num"
 	"github.com/invopop/gobl/schema"
 	"github.com/invopop/gobl/tax"
 	"github.com/invopop/gobl/uuid"
@@ -47,9 +45,6 @@ const (
 	// complaints about the value of a tax.Extensions member (`…/ext/<key>`),
 	// which GOBL does not hold to the cbc.Code pattern.
 	knownExtValue = "extension-value-not-held-to-code-pattern"
-	// an amount whose int64 value is math.MinInt64 (saturated float conversion
-	// after an overflow) prints as `--922…` .
-	knownAmountMinInt64 = "amount-at-int64-minimum-prints-double-minus"
 	// complaints inside `tracking` of a bill.Delivery, which Delivery.Validate does not visit.
 	knownDeliveryTracking = "delivery-tracking-not-validated"
 	// a `format: uri` complaint about a text that is.URL accepted although it cannot be an
@@ -366,16 +361,9 @@ func classifyOne(ck *check, e pyErr) string {
 		return knownExtValue
 	case reTracking.MatchString(e.Path) && ck.id == base+"bill/delivery":
 		return knownDeliveryTracking
-	case e.Kw == "pattern":
-		if t, ok := val.(string); ok && strings.HasPrefix(t, "--") {
-			// exactly what Amount.String prints for the int64 minimum at some precision
-			for e := uint32(1); e <= 18; e++ {
-				if num.MakeAmount(math.MinInt64, e).String() == t {
-					return knownAmountMinInt64
-				}
-			}
-		}
 	}
+	// (an amount saturated at math.MinInt64 used to print as `--922….-8`; Amount.String
+	// now writes its decimal text, so a pattern complaint about an amount is a violation)
 	return ""
 }
 
